@@ -1,5 +1,5 @@
 SPECIFICATION Spec
-CONSTANTS L = 3  Variant = "reverse_ties"
+CONSTANTS L = 2  Variant = "reverse_ties"
 INVARIANT TypeOK
 INVARIANT PainterRule
 INVARIANT PrefixRule
